@@ -15,7 +15,7 @@ CLAIM = {
              "swallows a failure of the evaluation, and the user function is invoked where a StopIteration it raises cannot pass for exhaustion (generator expression / comprehension / statement, not map+lambda); "
              "(R2) result files are written only by grow(), under a name that is a function of its batch_number alone; sowing writes only batches/, the settings and the function file; nothing but delete_all and check_bad removes crop files; "
              "(R3) every progress query recomputes from disk before answering (each return is dominated by calc_progress), all queries and grow use the writer's directory+template, directory listings count final names but no leftover temporary, "
-             "missing_results ranges over [1, num_batches], is_ready_to_reap is 'results > 0 and results == sown batches', grow_missing grows exactly missing_results() with crop=self. "
+             "missing_results ranges over [1, num_batches], is_ready_to_reap is 'results > 0 and results == sown batches', grow_missing grows exactly missing_results() with crop=self; (R7) the persisted batch numbers (batchsize, num_batches, remainder) are chosen before anything is written and restored unconditionally from the like-named keys, so progress queries of a re-created Crop range over the batches actually sown. "
              "Not decided: that glob counts equal settings counts on arbitrary foreign files in the crop directory."),
     "note": "Trusted base: file-system listing / existence semantics; PEP 479 (StopIteration inside a generator becomes RuntimeError); CPython semantics of the parsed ast.",
     "technique": "static analysis: CFG reachability / dominance rules with exception edges, who-may-write and who-may-remove call-graph rules, constant folding of path templates and listing filters",
